@@ -30,3 +30,18 @@ package datasource
 //@   prop C09
 //@   ensures text-is-compared-as-text: x != nil && y != nil && isT(x, string) && isT(y, string) ==> result == (x.(string) == y.(string))
 //@   may_panic
+
+// C01 / C09, the row scanner of the validation query (SELECT * ... FOR UPDATE at rollback): the MySQL
+// driver reports sql.RawBytes as the scan type of text, decimal, blob and json columns whether or not
+// they are nullable, and database/sql refuses to scan NULL into a *string ("converting NULL to string
+// is unsupported"). A destination that refuses NULL makes every rollback of a row holding a NULL in
+// such a column fail, for ever. i stands for an arbitrary index.
+//@ ext (*database/sql.ColumnType).ScanType
+//@   ensures true
+//@ func GetScanSlice
+//@   prop C09 C01
+//@   let i := some(int, "i")
+//@   loop 1 invariant index: rangeindex1 >= -1
+//@   loop 1 invariant null-is-accepted-so-far: 0 <= i && i < len(scanSlice) ==> !isT(scanSlice[i], *string)
+//@   ensures every-destination-accepts-null: 0 <= i && i < len(result) ==> !isT(result[i], *string)
+//@   may_panic
